@@ -98,7 +98,10 @@ func extractFromPath(path *Path, data []byte, optFuncs ...DecodeOptionFunc) ([][
 	ctx.Buf = src
 	ctx.Option.Flags = 0
 	ctx.Option.Flags |= decoder.PathOption
-	ctx.Option.Path = path.path
+	// evaluation moves a cursor inside the Path: work on a per-call copy so that
+	// the caller's Path is never modified (reuse after an error, concurrent use).
+	evalPath := *path.path
+	ctx.Option.Path = &evalPath
 	for _, optFunc := range optFuncs {
 		optFunc(ctx.Option)
 	}
